@@ -411,6 +411,28 @@ Proof.
   destruct Hk as [E | [E | E]]; subst t; cbn [wire_term]; exact I.
 Qed.
 
+(* ---------- pre-shared keys ---------- *)
+
+(* a PSK that is not derivable keeps the pre_master_secret, the master secret and the exporter underivable *)
+Theorem pms_psk_underivable : forall K psk, ~ derives K psk -> ~ derives K (pms_psk psk).
+Proof. intros K psk H Hd. apply H. unfold pms_psk in Hd. eapply d_snd. exact Hd. Qed.
+
+Theorem exporter12_from_psk : forall K psk label cr sr,
+  ~ derives K psk -> (forall l s, ~ ana K (TPrf (pms_psk psk) l s)) ->
+  (forall l s, ~ ana K (TPrf (ms12 (pms_psk psk) cr sr) l s)) ->
+  ~ derives K (exporter12 (ms12 (pms_psk psk) cr sr) label cr sr).
+Proof. intros K psk label cr sr H. apply exporter12_from_pms. now apply pms_psk_underivable. Qed.
+
+(* ... but the EMPTY key is public: with it everything down to the exporter is computable from the hello randoms.
+   The premise "the PSK is not derivable" is void for an empty key, which is why the endpoints must refuse one
+   (flight4Parse / handleServerKeyExchange, f39ce00); the harness checks that they do. *)
+Theorem exporter12_empty_psk_refuted : forall K label cr sr,
+  derives K (exporter12 (ms12 (pms_psk empty) (TPub cr) (TPub sr)) (TPub label) (TPub cr) (TPub sr)).
+Proof.
+  intros K label cr sr. unfold exporter12, ms12, pms_psk, empty.
+  repeat (first [apply d_pub | apply d_prf | apply d_pair]).
+Qed.
+
 Print Assumptions exporter12_underivable.
 Print Assumptions exporter13_underivable.
 Print Assumptions exporter_keyed_by_public_refuted.
